@@ -36,7 +36,7 @@ import (
 )
 
 func init() {
-	evid.Register(&evid.Check{ID: "C15", Level: "fault_enumeration", Run: run, QuickBudget: 150 * time.Second, ThoroughBudget: 15 * time.Minute})
+	evid.Register(&evid.Check{ID: "C15", Level: "fault_enumeration", Run: run, QuickBudget: 300 * time.Second, ThoroughBudget: 15 * time.Minute})
 	evid.RegisterWorker("c15kill", killWorker)
 }
 
